@@ -214,7 +214,7 @@ def gen_scenario(rng, kind, scale):
         rows1 = gen_writes(rng, init, nw, "OV1", want_template=rng.choice([True, False]))
         inputs["ov1"] = make_input("ov1", rows1, False)
         p1 = [["open"], ["override", "ov1", "process_dump", rows1]]
-        p1close = rng.random() < 0.5
+        p1close = rng.random() < 0.7
         if p1close:
             p1.append(["close"])
         tags["prev_run_closed"] = p1close
